@@ -252,8 +252,13 @@ func (c *genCtx) gen(depth int, nn, incap bool) *Expr {
 		}
 		if c.o.Parseables && c.draw(0, 3, "parseable") == 0 {
 			e := &Expr{Kind: KPars, Prod: -1, Uni: -1}
-			if c.draw(0, 2, "rewinding") == 0 {
+			switch c.draw(0, 4, "parskind") {
+			case 0:
 				e.S = "R" // the rewinding kind (PTokR)
+			case 1:
+				if c.g.Profile == "" {
+					e.S = "N" // an embedded parser (PNest); its grammar is written for the stateful lexer profile
+				}
 			}
 			return e
 		}
@@ -567,9 +572,12 @@ func (c *genCtx) trap(depth int, nn bool) *Expr {
 		// a failure deep inside a repeated item, followed by a tail that accepts any token: if the failure is
 		// swallowed anywhere on the way up, the tail mops up the rest and the parse wrongly succeeds
 		var x *Expr
-		if c.nu > 1 && c.draw(0, 1, "mopuni") == 0 {
+		switch {
+		case c.o.Parseables && c.g.Profile == "" && c.draw(0, 3, "mopnest") == 0:
+			x = &Expr{Kind: KPars, S: "N", Prod: -1, Uni: -1} // an embedded parser that can fail several tokens in
+		case c.nu > 1 && c.draw(0, 1, "mopuni") == 0:
 			x = SubU(c.draw(1, c.nu-1, "uni"))
-		} else {
+		default:
 			x = c.subProd(true, depth)
 		}
 		if x == nil {
@@ -691,6 +699,9 @@ func assignFields(t *rapid.T, p *Prod, e *Expr, pi int) {
 			k := rapid.SampledFrom([]FKind{FPars, FParsV, FParss, FCust, FCusts}).Draw(t, "pk")
 			if e.S == "R" {
 				k = FParsR
+			}
+			if e.S == "N" {
+				k = FParsN
 			}
 			n := len(p.Fields)
 			if n > 0 && p.Fields[n-1].Kind == k && rapid.Bool().Draw(t, "reuse") {
@@ -904,6 +915,11 @@ func Sample(t *rapid.T, g *Grammar, e *Expr, out *[]VTok, fuel *int) {
 			Sample(t, g, g.Prods[e.Prod].Expr, out, fuel)
 		}
 	case KNeg, KPars:
+		if e.Kind == KPars && e.S == "N" {
+			*out = append(*out, rapid.SampledFrom(g.Prof().vocabOf("Ident")).Draw(t, "nestk"), VTok{Type: g.Prof().TypeOfText("+"), Value: "+"},
+				rapid.SampledFrom(g.Prof().vocabOf("Int")).Draw(t, "nestv"), VTok{Type: g.Prof().TypeOfText("+"), Value: "+"})
+			return
+		}
 		v := rapid.SampledFrom(g.Prof().Vocab).Draw(t, "negtok")
 		if e.Kind == KPars && e.S == "R" && strings.ContainsAny(v.Value, "bB") {
 			v = VTok{Type: "Int", Value: "12"} // the rewinding production does not take tokens spelled with a b
